@@ -51,6 +51,7 @@ type Entry struct {
 	Now     int    `json:"now,omitempty"`
 	Alive   []bool `json:"alive,omitempty"`   // per minted sid: present and alive at the server
 	Present []bool `json:"present,omitempty"` // per minted sid: present at the server
+	Exp     []int  `json:"exp,omitempty"`     // per minted sid: expiry in virtual time (-1 = not cached)
 	// C07
 	Look      []bool          `json:"look,omitempty"` // per minted sid: SessionCache.Lookup finds it
 	RoutesRaw json.RawMessage `json:"routes,omitempty"`
@@ -99,6 +100,8 @@ func perTriple(raw json.RawMessage, triples [][]string) ([]int, error) {
 type Scenario struct {
 	H       []Entry    `json:"h"`
 	Triples [][]string `json:"triples,omitempty"`
+	Dur     int        `json:"dur,omitempty"`   // the model's Duration (ticks)
+	Lease   int        `json:"lease,omitempty"` // the model's Lease (ticks)
 }
 
 func ParseScenario(raw json.RawMessage) (*Scenario, error) {
